@@ -61,7 +61,7 @@ theorem no_input_writes :
     Gen.Writes.indexWrites = ["charset.fromHTML:attrList[ks]", "charset.fromHTML:val[i]"] := by decide
 
 /- non-vacuity: a dirty pooled state (deep path, satisfied query) gives the fresh answer -/
-example : parseWith { ib := 99, currPath := [[1], [2]], firstToken := 128, querySatisfied := true, complete := true }
+example : parseWith { ib := 99, currPath := [[1], [2]], firstToken := 128, querySatisfied := true }
     4096 q_geo [0x7B, 0x7D] = parseWith PState.fresh 4096 q_geo [0x7B, 0x7D] := rfl
 
 end Mime.C04
